@@ -2520,7 +2520,27 @@ def result_switches(fn, call_block, ty_part=None, proj=None):
         elif flds != list(proj):
             return False
         return ty_part is None or ty_part in info["ty"]
-    return first_switches(fn, t["target"], pred)
+    res = first_switches(fn, t["target"], pred)
+    # `let mut r = f(); while .. { ..; r = f(); }`: the second call's result is moved into `r` *after* drop elaboration has re-tested
+    # the old value of `r`; a switch from which the move is still to come (without calling again) tests the old value, not this result
+    moves = {}
+    for bi, blk in enumerate(fn.blocks):
+        for st in blk["stmts"]:
+            if st["k"] == "assign" and not st["lhs"]["p"] and st["rv"]["k"] == "use" and st["rv"]["op"]["k"] in ("copy", "move") \
+                    and not st["rv"]["op"]["p"] and st["rv"]["op"]["l"] in derived and st["lhs"]["l"] != dest:
+                moves.setdefault(st["lhs"]["l"], set()).add(bi)
+    out, again, stale = set(), set(), set()
+    for s in res:
+        loc = fn.switch_info(s)["place"]["l"]
+        mv = moves.get(loc, set()) - {s}
+        if loc != dest and mv and (mv & fn.reach([s], avoid_blocks=[call_block])):
+            again |= mv
+            stale.add(s)
+        else:
+            out.add(s)
+    for ab in again:
+        out |= set(first_switches(fn, ab, pred)) - stale
+    return sorted(out)
 
 
 def const_value(fn, op, depth=6):
